@@ -206,7 +206,7 @@ func init() {
 		}
 
 		misc := run.Rule("DT-batch-misc", "key expansion caches exactly the DT-1 predicates of the same bytes; checkExpandedPublicKey is DT-1 over the cached fields; batch early aborts, serial fallback, Add/Reset pairing and the caching verifier's delegation", 30)
-		for _, s := range append(c09MiscSpecs(), c09MoreSpecs()...) {
+		for _, s := range append(append(c09MiscSpecs(), c09MoreSpecs()...), c09LRUSpecs()...) {
 			r := edt.Check(misc, cfg, s)
 			run.Sample(map[string]any{"function": s.Func, "paths": r.Paths, "feasible": r.Feasible, "classes": r.ClassCount})
 		}
